@@ -6,6 +6,7 @@ import (
 	"strconv"
 	"strings"
 	"unicode"
+	"unicode/utf8"
 
 	"github.com/c4pt0r/kvql"
 
@@ -22,6 +23,35 @@ type c16Case struct {
 }
 
 func (c *c16Case) text() string { return strconv.Quote(c.Query) }
+
+// A query that is no valid UTF-8 travels as bytes (JSON text would replace
+// the invalid bytes), next to a readable quoted form.
+type c16Wire struct {
+	Query  string   `json:"query"`
+	Bytes  []byte   `json:"query_bytes,omitempty"`
+	Tokens []string `json:"tokens,omitempty"`
+}
+
+func (c c16Case) MarshalJSON() ([]byte, error) {
+	w := c16Wire{Query: c.Query, Tokens: c.Tokens}
+	if !utf8.ValidString(c.Query) {
+		w.Bytes = []byte(c.Query)
+		w.Query = strconv.QuoteToASCII(c.Query)
+	}
+	return json.Marshal(w)
+}
+
+func (c *c16Case) UnmarshalJSON(b []byte) error {
+	var w c16Wire
+	if err := json.Unmarshal(b, &w); err != nil {
+		return err
+	}
+	c.Query, c.Tokens = w.Query, w.Tokens
+	if w.Bytes != nil {
+		c.Query = string(w.Bytes)
+	}
+	return nil
+}
 
 type c16 struct{}
 
@@ -66,8 +96,25 @@ func isDigits(s string) bool {
 	return true
 }
 
+// refFold case-folds a word: every letter to its lower case, every other
+// byte (bytes that are no valid UTF-8 included) kept as it is.
+func refFold(s string) string {
+	b := make([]byte, 0, len(s))
+	for i := 0; i < len(s); {
+		r, n := utf8.DecodeRuneInString(s[i:])
+		if r == utf8.RuneError && n <= 1 {
+			b = append(b, s[i])
+			i++
+			continue
+		}
+		b = utf8.AppendRune(b, unicode.ToLower(r))
+		i += n
+	}
+	return string(b)
+}
+
 func classifyWord(w string) string {
-	lw := strings.ToLower(w)
+	lw := refFold(w)
 	if k, ok := c16Keywords[lw]; ok {
 		return k
 	}
@@ -144,7 +191,7 @@ func refLex(q string) (toks []rtok, unterminated, odd bool) {
 			lead := len(w) - len(strings.TrimLeftFunc(w, unicode.IsSpace))
 			w = strings.TrimSpace(w)
 			if w != "" {
-				toks = append(toks, rtok{classifyWord(w), strings.ToLower(w), i + lead})
+				toks = append(toks, rtok{classifyWord(w), refFold(w), i + lead})
 			}
 			i = j
 		}
@@ -232,7 +279,7 @@ func c16Judge(c *c16Case) (f *core.Failure, nontrivial bool, status string) {
 			if t.kind == "NAME" && at >= 0 && at < len(q) && q[at] == '`' {
 				at++ // back-quoted name
 			}
-			if at < 0 || at+len(t.text) > len(q) || strings.ToLower(q[at:at+len(t.text)]) != t.text {
+			if at < 0 || at > len(q) || !strings.HasPrefix(refFold(q[at:]), t.text) {
 				return mk("offset-and-text", "text-not-at-offset", "each token's text at its reported offset", fmt.Sprintf("token %d of %s", i, fmtToks(got))), nontrivial, ""
 			}
 		}
@@ -304,6 +351,7 @@ func c16Units(t core.Tier) []c16Unit {
 	}
 	us = append(us, c16Unit{fam: "words"})
 	us = append(us, c16Unit{fam: "uspace"})
+	us = append(us, c16Unit{fam: "bytes"})
 	return us
 }
 
@@ -353,6 +401,23 @@ func (c16) RunUnit(t core.Tier, u int, r *core.Reporter) {
 		// all sequences of <= 5 units over words, an operator, a quote and
 		// six kinds of white space beyond the blank
 		units := []string{"a", "1", "=", "'", " ", "\f", "\v", "\u00a0", "\u0085", "\u2003"}
+		var rec func(cur string, n int)
+		rec = func(cur string, n int) {
+			if n > 0 {
+				judge(c16Case{Query: cur})
+			}
+			if n == 5 {
+				return
+			}
+			for _, u := range units {
+				rec(cur+u, n+1)
+			}
+		}
+		rec("", 0)
+	case "bytes":
+		// all sequences of <= 5 units over letters of one, two and three bytes in
+		// both cases, bytes that are no valid UTF-8, an operator, a quote and a blank
+		units := []string{"a", "B", "\u00c9", "\u00e9", "\u212a", "\xff", "\xc3", "=", "'", " "}
 		var rec func(cur string, n int)
 		rec = func(cur string, n int) {
 			if n > 0 {
